@@ -42,7 +42,8 @@ def one(pid, k, keep):
         m = re.search(r"(\d+) failed, (\d+) passed", outs)
         suite = m.group(0) if m else outs.strip()[-80:]
         def stable(o):  # timing lines a demo prints to stderr are not part of its result
-            return "\n".join(l for l in o.strip().splitlines() if not re.search(r"\[cpu [0-9.]+s\]", l))
+            keep = [l for l in o.strip().splitlines() if not re.search(r"\[cpu [0-9.]+s\]", l)]
+            return "\n".join(re.sub(r"\b\d+\.\d+ ?s(ec(onds)?)?\b( elapsed)?", "<time>", l) for l in keep)
         same = (stable(o0) == stable(o1))
         confirmed = rc0 == 0 and rc1 == 0 and same and suite == "12 failed, 187 passed"
         procs = [(p, subprocess.Popen([os.path.join(VERIF, "check"), p, "--repo", wt, "--no-evidence"], cwd=VERIF, stdout=subprocess.PIPE, stderr=subprocess.STDOUT, text=True))
